@@ -7,6 +7,11 @@ Part 2  preemptive stress: 8 threads over a PDF-heavy mixed workload with a 1 us
         single-threaded baselines, global state snapshot before/after.
 Part 3  histories: random sequences of extractions (incl. failing inputs) in one process; after every step the global
         state snapshot must equal the initial one and every result must equal its fresh-process baseline.
+        A step is (bytes, path): the path argument varies per step (None included), and besides the random pool the
+        histories walk *context groups* (vlib/gen/isolation_docs.py): documents that share a sub-key (a \'hh escape, a
+        part name, a relationship id, a string index, a style id, a member name) and differ in the context that gives
+        it its meaning (code page, package, target ...), incl. members whose optional parts are absent or dangling.
+        The same groups are run under 8-thread preemption in part 2.
 """
 from __future__ import annotations
 
@@ -17,9 +22,11 @@ import json
 import os
 import sys
 import threading
+import time
 import types
 
 from vlib import corpus, pool
+from vlib.gen import isolation_docs as iso
 
 LEVEL = "exploration"
 
@@ -64,6 +71,30 @@ def _digest(results):
     for r in results:
         out.append(hashlib.sha1(json.dumps(r.to_json(), sort_keys=True, default=repr).encode()).hexdigest()[:16])
     return out
+
+
+def _step(step):
+    """[kind, recipe] or [kind, recipe, path index] -> canonical 3-element step."""
+    return [step[0], step[1], step[2] if len(step) > 2 else 1]
+
+
+def _step_key(step) -> str:
+    return json.dumps(_step(step), sort_keys=True)
+
+
+def _step_io(step):
+    kind, recipe, pidx = _step(step)
+    data = iso.make_input(recipe)
+    ext = corpus.KIND_EXT.get(kind, ".bin") if kind != "zip" else iso.source_ext(recipe["src"])
+    return kind, data, iso.path_for(pidx, ext)
+
+
+def _extract_digest(kind, data, path):
+    from vlib import obs
+    try:
+        return _digest(list(obs.extractor(kind)(io.BytesIO(data), path)))
+    except Exception as e:
+        return f"raises {type(e).__name__}"
 
 
 def work_init(init):
@@ -114,10 +145,20 @@ def part_scheduler(case):
     k = case["threads"]
     bad = []
     states = set()
+    # every module-level lock of the extractor becomes a scheduler-aware lock for the duration of the exploration
+    real_locks = {n: v for n, v in vars(P).items() if isinstance(v, (type(threading.Lock()), type(threading.RLock())))}
+    sched_locks = {n: _SchedLock(current, isinstance(v, type(threading.RLock()))) for n, v in real_locks.items()}
+    for n, l in sched_locks.items():
+        setattr(P, n, l)
     try:
         def make_fns():
             for (mod, name), orig in originals.items():
                 types.ModuleType.__setattr__(mod, name, orig)
+            for l in sched_locks.values():
+                l.owner, l.depth = None, 0
+            for n in ("_char_map_patch_users",):      # the section's own user count starts from zero in every schedule
+                if isinstance(getattr(P, n, None), int):
+                    setattr(P, n, 0)
             seen_inside = [None] * k
 
             def body(idx):
@@ -126,8 +167,6 @@ def part_scheduler(case):
                     mod, name = targets[0]
                     seen_inside[idx] = getattr(mod, name)
             return [body] * k, seen_inside
-
-        orig_run_execute = sched.Run.execute
 
         def on_schedule(run, seen_inside, sid):
             current["run"] = None
@@ -145,46 +184,185 @@ def part_scheduler(case):
             if inside_unpatched:
                 bad.append({"sym": "unpatched-inside-critical-section", "detail": f"thread(s) {inside_unpatched} saw the original function while inside their own patch section (another thread restored it)", "trace": trace})
 
-        # Run.execute must see the hook only while a schedule executes
-        def execute(self, fns):
-            current["run"] = self
-            try:
-                return orig_run_execute(self, fns)
-            finally:
-                current["run"] = None
-        sched.Run.execute = execute
+        # the scheduler's Run, made aware of the library's own locks: waiting for a lock is a *logical* state (the thread is
+        # not enabled until the owner releases), never a wall-clock guess.  The wall-clock stall rule of vlib/mon/sched.py
+        # stays as a last resort for blocking the harness does not know, with a bound no machine load reaches.
+        orig_run = sched.Run
+        sched.Run = _lock_aware_run(sched, current, float(case.get("stall_s", 5.0)))
         try:
             stats = sched.explore(make_fns, k, on_schedule, max_schedules=case.get("max_schedules"), preemption_bound=case.get("preemption_bound"),
                                   rng=random.Random(case.get("seed", 0)), random_schedules=case.get("random_schedules", 0))
+        except sched.Deadlock as e:
+            stats = {"schedules": 0, "complete": False, "max_depth": 0, "blocked_seen": 0, "with_preemption": 0, "distinct_traces": 0}
+            bad.append({"sym": "deadlock", "detail": str(e)[:300], "trace": str(e)[-300:]})
         finally:
-            sched.Run.execute = orig_run_execute
+            sched.Run = orig_run
+            current["run"] = None
     finally:
         for mod, cls in old_classes.items():
             mod.__class__ = cls
         for (mod, name), orig in originals.items():
             setattr(mod, name, orig)
+        for name, real in real_locks.items():
+            setattr(P, name, real)
     first = {}
     for b in bad:
         first.setdefault(b["sym"], b)
         first[b["sym"]]["count"] = first[b["sym"]].get("count", 0) + 1
     return {"part": "scheduler", "threads": k, "stats": stats, "problems": list(first.values()), "distinct_end_states": len(states),
-            "targets": [f"{m.__name__}.{n}" for m, n in targets]}
+            "targets": [f"{m.__name__}.{n}" for m, n in targets], "locks": sorted(real_locks)}
+
+
+class _SchedLock:
+    """Stand-in for a threading.Lock / RLock of the library while schedules are explored: acquisition is a scheduling point and a
+    thread that cannot get the lock is parked as *not enabled* until the owner releases it."""
+
+    def __init__(self, current, reentrant):
+        self.current = current
+        self.reentrant = reentrant
+        self._real = threading.RLock() if reentrant else threading.Lock()
+        self.owner = None
+        self.depth = 0
+
+    def _who(self):
+        run = self.current["run"]
+        if run is None:
+            return None, None
+        return run, getattr(run.local, "idx", None)
+
+    def acquire(self, blocking=True, timeout=-1):
+        run, idx = self._who()
+        if idx is None:
+            return self._real.acquire(blocking, timeout)
+        return run.acquire_lock(self, idx, blocking and timeout < 0)
+
+    def release(self):
+        run, idx = self._who()
+        if idx is None:
+            return self._real.release()
+        if self.owner != idx:
+            raise RuntimeError("release unlocked lock")
+        self.depth -= 1
+        if self.depth == 0:
+            self.owner = None
+
+    def locked(self):
+        return self.owner is not None or (not self.reentrant and self._real.locked())
+
+    def __enter__(self):
+        self.acquire()
+        return True
+
+    def __exit__(self, *a):
+        self.release()
+
+
+def _lock_aware_run(sched, current, stall_s):
+    import time
+
+    class LockAwareRun(sched.Run):
+        def __init__(self, n_threads, chooser, _stall_s=None):
+            super().__init__(n_threads, chooser, stall_s)
+            self.want = {}                     # thread idx -> lock it is parked on
+
+        def acquire_lock(self, lock, idx, blocking):
+            self.point("acquire")
+            while True:
+                if lock.owner is None or (lock.reentrant and lock.owner == idx):
+                    lock.owner = idx
+                    lock.depth += 1
+                    return True
+                if not blocking:
+                    return False
+                with self.cv:
+                    self.want[idx] = lock
+                    self.waiting[idx] = "lock-wait"
+                    if self.token == idx:
+                        self.token = None
+                    self.cv.notify_all()
+                    while self.token != idx:
+                        self.cv.wait()
+                    del self.waiting[idx]
+                    self.want.pop(idx, None)
+                    self.running_since = time.monotonic()
+
+        def _enabled(self):
+            return sorted(i for i in set(self.waiting) - self.finished
+                          if not (i in self.want and self.want[i].owner is not None and self.want[i].owner != i))
+
+        def execute(self, fns):
+            current["run"] = self
+            try:
+                return self._execute(fns)
+            finally:
+                current["run"] = None
+
+        def _execute(self, fns):
+            threads = [threading.Thread(target=self._thread_main, args=(i, fns[i]), daemon=True) for i in range(self.n)]
+            for t in threads:
+                t.start()
+            step = 0
+            last = None
+            blocked = set()
+            while True:
+                with self.cv:
+                    while True:
+                        if self.token is None:
+                            break
+                        if time.monotonic() - self.running_since > self.stall_s and self.token not in self.waiting and self.token not in self.finished:
+                            blocked.add(self.token)        # blocked on something that is neither a point nor a known lock
+                            self.blocked_seen += 1
+                            self.token = None
+                            break
+                        self.cv.wait(timeout=0.25)
+                    blocked -= set(self.waiting) | self.finished
+                    if len(self.finished) == self.n:
+                        break
+                    enabled = self._enabled()
+                    if not enabled:
+                        parked = set(self.waiting) - self.finished
+                        if parked and not blocked and len(parked) + len(self.finished) == self.n:
+                            # every live thread waits for a lock whose owner is parked or gone: a real deadlock / leaked lock
+                            raise sched.Deadlock(f"threads {sorted(parked)} wait for locks nobody will release; trace={self.trace[-40:]}")
+                        if blocked:
+                            moved = self.cv.wait(timeout=2 * self.stall_s)
+                            if not moved and not self._enabled() and len(self.finished) < self.n:
+                                raise sched.Deadlock(f"threads {sorted(blocked)} blocked outside any scheduling point; trace={self.trace[-40:]}")
+                            continue
+                        self.cv.wait(timeout=0.5)
+                        continue
+                    chosen = self.chooser(step, enabled, last)
+                    self.decisions.append((enabled.index(chosen), len(enabled), enabled))
+                    step += 1
+                    last = chosen
+                    self.token = chosen
+                    self.running_since = time.monotonic()
+                    self.cv.notify_all()
+            for t in threads:
+                t.join(timeout=30)
+            return self
+
+    return LockAwareRun
 
 
 # ------------------------------------------------------------------------------------------ part 2: preemptive stress
 def part_stress(case):
-    from vlib import obs
     import random
     rng = random.Random(case["seed"])
-    inputs = [(k, corpus.load(s), corpus.source_ext(s)) for k, s in case["inputs"]]
+    steps = [_step([k, {"src": s, "op": None}] + list(rest)) for k, s, *rest in case["inputs"]]
+    inputs = [_step_io(st) for st in steps]
+    expect = case.get("expect") or [None] * len(inputs)
     base = {}
-    for i, (kind, data, ext) in enumerate(inputs):
-        try:
-            base[i] = _digest(list(obs.extractor(kind)(io.BytesIO(data), "dir/in" + ext)))
-        except Exception as e:
-            base[i] = f"raises {type(e).__name__}"
-    before = snapshot()
     problems = []
+    # sequential warm-up: one extraction per input in this process (a history of its own); where the parent knows the
+    # isolated (fresh-process) digest of an input, that one is the reference for everything below
+    for i, (kind, data, path) in enumerate(inputs):
+        d = _extract_digest(kind, data, path)
+        if expect[i] is not None and d != expect[i]:
+            problems.append({"sym": "result-differs-from-isolated-baseline", "feature": _feature(steps[i]), "part": "history",
+                             "detail": f"{_step_key(steps[i])[:200]}: {d} sequentially before the threads start vs {expect[i]} in a fresh process"})
+        base[i] = expect[i] if expect[i] is not None else d
+    before = snapshot()
     lock = threading.Lock()
     old = sys.getswitchinterval()
     sys.setswitchinterval(1e-6)
@@ -202,15 +380,12 @@ def part_stress(case):
         r = random.Random(f"{case['seed']}:{tid}")
         for _ in range(case["iterations"]):
             i = r.randrange(len(inputs))
-            kind, data, ext = inputs[i]
-            try:
-                d = _digest(list(obs.extractor(kind)(io.BytesIO(data), "dir/in" + ext)))
-            except Exception as e:
-                d = f"raises {type(e).__name__}"
+            kind, data, path = inputs[i]
+            d = _extract_digest(kind, data, path)
             with lock:
                 runs[0] += 1
                 if d != base[i]:
-                    problems.append({"sym": "result-differs-under-concurrency", "detail": f"{case['inputs'][i][1]}: {d} vs baseline {base[i]}"})
+                    problems.append({"sym": "result-differs-under-concurrency", "feature": _feature(steps[i]), "detail": f"{case['inputs'][i][1]}: {d} vs baseline {base[i]}"})
     ts = [threading.Thread(target=body, args=(t,)) for t in range(case["threads"])]
     try:
         for t in ts:
@@ -227,37 +402,39 @@ def part_stress(case):
     if after["open_fds"] > before["open_fds"] + 2:
         problems.append({"sym": "global-state-changed:open_fds", "detail": f"{before['open_fds']} -> {after['open_fds']}"})
     # after the storm, results must again equal the baseline
-    for i, (kind, data, ext) in enumerate(inputs):
-        try:
-            d = _digest(list(obs.extractor(kind)(io.BytesIO(data), "dir/in" + ext)))
-        except Exception as e:
-            d = f"raises {type(e).__name__}"
+    for i, (kind, data, path) in enumerate(inputs):
+        d = _extract_digest(kind, data, path)
         if d != base[i]:
-            problems.append({"sym": "result-differs-after-concurrent-history", "detail": f"{case['inputs'][i][1]}: {d} vs baseline {base[i]}"})
+            problems.append({"sym": "result-differs-after-concurrent-history", "feature": _feature(steps[i]), "detail": f"{case['inputs'][i][1]}: {d} vs baseline {base[i]}"})
     first = {}
     for p in problems:
-        first.setdefault(p["sym"], p)
+        first.setdefault((p["sym"], p.get("feature")), p)
     if thread_errors:
         return {"_harness_error": "stress thread failed: " + thread_errors[0]}
-    return {"part": "stress", "extractions": runs[0], "problems": list(first.values())}
+    return {"part": "stress", "extractions": runs[0], "problems": list(first.values()), "isolated_references": sum(1 for e in expect if e is not None)}
+
+
+def _feature(step) -> str:
+    """Mechanism-level name of what a step is: the generic pool is 'sequence'/'mixed-workload', a context-group member its family and variant."""
+    src = step[1]["src"]
+    if iso.is_iso(src):
+        if src[1] == "drop":
+            return f"{step[0]}-without-" + "+".join(n.rsplit("/", 1)[-1] for n in src[3])
+        return f"{src[1]}-{str(src[2]).replace(':', '-')}" + ("" if not step[1].get("op") else "-damaged")
+    return ""
 
 
 # ------------------------------------------------------------------------------------------ part 3: histories
 def part_history(case):
-    from vlib import obs
     problems = []
     start = snapshot()
     steps = 0
     digests = {}
-    for step, (kind, recipe) in enumerate(case["steps"]):
-        data = corpus.make_input(recipe)
-        ext = corpus.KIND_EXT.get(kind, ".bin") if kind != "zip" else corpus.source_ext(recipe["src"])
-        try:
-            d = _digest(list(obs.extractor(kind)(io.BytesIO(data), "dir/in" + ext)))
-        except Exception as e:
-            d = f"raises {type(e).__name__}"
-        key = json.dumps([kind, recipe], sort_keys=True)
-        digests.setdefault(key, []).append(d)
+    for step, st in enumerate(case["steps"]):
+        kind, recipe, pidx = _step(st)
+        kind, data, path = _step_io(st)
+        d = _extract_digest(kind, data, path)
+        digests.setdefault(_step_key(st), []).append(d)
         steps += 1
         gc.collect()
         now = snapshot()
@@ -274,15 +451,19 @@ def part_history(case):
 
 
 def part_baseline(case):
-    from vlib import obs
-    kind, recipe = case["step"]
-    data = corpus.make_input(recipe)
-    ext = corpus.KIND_EXT.get(kind, ".bin") if kind != "zip" else corpus.source_ext(recipe["src"])
-    try:
-        d = _digest(list(obs.extractor(kind)(io.BytesIO(data), "dir/in" + ext)))
-    except Exception as e:
-        d = f"raises {type(e).__name__}"
-    return {"part": "baseline", "digest": d}
+    kind, data, path = _step_io(case["step"])
+    out = {"part": "baseline", "digest": _extract_digest(kind, data, path)}
+    src = case["step"][1]["src"]
+    if iso.is_iso(src) and src[1] != "drop" and not case["step"][1].get("op"):
+        # generator self-check: the isolated result shows what the writer says it wrote (its own tokens, decoded escapes)
+        from vlib import obs
+        t = iso.truth(src)
+        try:
+            js = json.dumps([r.to_json() for r in obs.extractor(kind)(io.BytesIO(data), path)], ensure_ascii=False, default=repr)
+            out["truth_ok"] = all(x in js for x in t.get("has", [])) and ("decoded" not in t or t["decoded"] in js)
+        except Exception:
+            out["truth_ok"] = False
+    return out
 
 
 def work(case):
@@ -304,33 +485,91 @@ def main(run):
     others = [(k, s) for k in ("docx", "xlsx", "zip", "html", "odt", "rtf", "eml", "mbox", "msg", "mhtml") for s in sources.get(k, [])[:2]]
     # inputs whose result could depend on process-global registries (codecs, mimetypes): HTML in unusual declared charsets
     others += [("html", s) for s in sources.get("html", []) if s[0] == "htmlcs"]
-    cases = [
-        {"part": "scheduler", "threads": 2, "seed": run.seed},
-        {"part": "scheduler", "threads": 3, "seed": run.seed, "preemption_bound": run.n(2, 3), "max_schedules": run.n(500, 40000), "random_schedules": run.n(150, 5000)},
-    ]
+    import zlib
+    # scheduler work is bounded by numbers of schedules (logical steps), never by wall time, and split into several pool cases
+    # so that one slow case cannot zero the counters: exhaustive for 2 threads; for 3 threads a preemption-bounded DFS per
+    # bound plus independent chunks of random schedules
+    cases = [{"part": "scheduler", "threads": 2, "seed": run.seed}]
+    for pb, mx in ((2, run.n(350, 6000)), (3, run.n(150, 12000))):
+        cases.append({"part": "scheduler", "threads": 3, "seed": run.seed, "preemption_bound": pb, "max_schedules": mx})
+    for ch in range(run.n(2, 8)):
+        cases.append({"part": "scheduler", "threads": 3, "seed": run.seed * 100 + ch, "max_schedules": 1, "random_schedules": run.n(100, 1000)})
+    stress_cases = []
     for i in range(run.n(6, 60)):
         ins = rng.sample(pdfs, min(len(pdfs), 5)) + rng.sample(others, min(len(others), 3))
-        cases.append({"part": "stress", "seed": run.seed * 1000 + i, "threads": 8, "iterations": run.n(6, 12), "inputs": ins})
+        stress_cases.append({"part": "stress", "seed": run.seed * 1000 + i, "threads": 8, "iterations": run.n(6, 12), "inputs": [list(x) for x in ins]})
+
+    # ---- context groups: members share a sub-key and differ in the context that decides its meaning (+ optional parts absent / dangling)
+    def pidx_of(src):
+        """A document is seen under two paths: none at all, and one fixed path of its own."""
+        return rng.choice((0, 1 + zlib.crc32(json.dumps(src).encode()) % (len(iso.PATHS) - 1)))
+    groups = iso.groups()
+    dropped = iso.dropped_sources(sources, per_kind=run.n(1, 3))
+    # corpus documents with optional package parts removed, as one more group per kind (same package, part present / absent)
+    by_kind = {}
+    for k, s in dropped:
+        by_kind.setdefault(k, []).append((k, s))
+    for k, ms in sorted(by_kind.items()):
+        groups.append({"name": f"{k}:optional-parts-removed/package", "members": ms + [(k, ms[0][1][2])]})
+    iso_steps = [[k, {"src": s, "op": None}, p] for g in groups for k, s in g["members"] for p in (0, 1 + zlib.crc32(json.dumps(s).encode()) % (len(iso.PATHS) - 1))]
+    for gi, g in enumerate(groups):
+        if run.quick and gi % 3 != run.seed % 3 and g["name"].split(":")[0] not in ("rtf", "docx"):
+            continue        # quick tier: a third of the groups per seed under threads (all of them in the histories below)
+        stress_cases.append({"part": "stress", "seed": run.seed * 1000 + 500 + gi, "threads": 8, "iterations": run.n(10, 30), "group": g["name"],
+                             "inputs": [[k, s, pidx_of(s)] for k, s in g["members"]]})
     hist_cases = []
-    pool_steps = [(k, {"src": s, "op": None}) for k, s in pdfs + others]
+    pool_steps = [[k, {"src": s, "op": None}] for k, s in pdfs + others]
     # failing / damaged inputs of every kind in the pool (archives included: a failure half-way through unpacking must clean up too)
     for op, ms in (("truncate", 7), ("bitflip", 11), ("zero", 13), ("truncate_tail", 17), ("numbers", 19)):
-        pool_steps += [(k, {"src": s, "op": op, "family": "byte", "mseed": ms}) for k, s in (pdfs[:3] + others)]
-    pool_steps += [("zip", {"src": s, "op": op, "family": "byte", "mseed": ms}) for s in sources.get("zip", []) for op, ms in (("zero", 23), ("bitflip", 29), ("numbers", 31), ("truncate_tail", 37))]
+        pool_steps += [[k, {"src": s, "op": op, "family": "byte", "mseed": ms}] for k, s in (pdfs[:3] + others)]
+    pool_steps += [["zip", {"src": s, "op": op, "family": "byte", "mseed": ms}] for s in sources.get("zip", []) for op, ms in (("zero", 23), ("bitflip", 29), ("numbers", 31), ("truncate_tail", 37))]
+    # damaged context-group members: a failure half-way must not leave its parts behind for the next document either
+    damaged_iso = [[st[0], {"src": st[1]["src"], "op": op, "family": "byte", "mseed": 41}, st[2]] for st in iso_steps[::7] for op in ("truncate_tail", "bitflip")]
     for i in range(run.n(20, 300)):
-        steps = [rng.choice(pool_steps) for _ in range(rng.randint(6, 20))]
+        steps = [rng.choice(pool_steps) if rng.random() < 0.8 else rng.choice(iso_steps + damaged_iso) for _ in range(rng.randint(6, 20))]
         hist_cases.append({"part": "history", "steps": steps, "id": i})
-    base_cases = [{"part": "baseline", "step": s} for s in pool_steps]
+    for gi, g in enumerate(groups):
+        for rep in range(run.n(1, 6)):
+            ms = list(g["members"])
+            seq = ms + [rng.choice(ms) for _ in range(rng.randint(1, 4))]
+            rng.shuffle(seq)
+            steps = [[k, {"src": s, "op": None}, pidx_of(s)] for k, s in seq]
+            for _ in range(rng.randint(0, 2)):
+                steps.insert(rng.randrange(len(steps) + 1), rng.choice(damaged_iso + pool_steps[:len(pdfs) + len(others)]))
+            hist_cases.append({"part": "history", "steps": steps, "id": f"g{gi}.{rep}", "group": g["name"]})
+    # isolated baselines: every (bytes, path) that occurs in a history or a stress case, each in a fresh process
+    wanted = {}
+    for hc in hist_cases:
+        for st in hc["steps"]:
+            wanted.setdefault(_step_key(st), _step(st))
+    for sc in stress_cases:
+        for inp in sc["inputs"]:
+            st = _step([inp[0], {"src": inp[1], "op": None}] + list(inp[2:]))
+            wanted.setdefault(_step_key(st), st)
+    base_cases = [{"part": "baseline", "step": st} for st in wanted.values()]
+    if os.environ.get("VERIF_C15_DEBUG"):
+        print("DEBUG baselines", len(base_cases), "iso", sum(1 for c in base_cases if iso.is_iso(c["step"][1]["src"])), "pool_steps", len(pool_steps), "hist", len(hist_cases), "stress", len(stress_cases), "t", time.time() - run.t0)
     baselines = {}
+    truth_ok = truth_n = 0
     sched_results = []
-    hist_obs = []
     # baselines in fresh workers (one input per worker process)
     for case, ob in pool.run_cases("checks.c15:work", base_cases, deadline_s=200, fresh_worker_per_case=True):
         if ob.get("part") == "baseline":
-            baselines[json.dumps(case["step"], sort_keys=True)] = ob["digest"]
+            baselines[_step_key(case["step"])] = ob["digest"]
+            if "truth_ok" in ob:
+                truth_n += 1
+                truth_ok += 1 if ob["truth_ok"] else 0
+                if not ob["truth_ok"]:
+                    run.extras.setdefault("context_documents_not_showing_their_ground_truth", []).append(case["step"][1]["src"])
         else:
             run.inconclusive_cases += 1
-    for case, ob in pool.run_cases("checks.c15:work", cases + hist_cases, deadline_s=600):
+    if os.environ.get("VERIF_C15_DEBUG"):
+        print("DEBUG baselines done t", time.time() - run.t0)
+    for sc in stress_cases:
+        sc["expect"] = [baselines.get(_step_key([inp[0], {"src": inp[1], "op": None}] + list(inp[2:]))) for inp in sc["inputs"]]
+    group_steps = 0
+    # the deadline is a watchdog against a wedged worker only (every case is bounded logically and by the worker's CPU budget)
+    for case, ob in pool.run_cases("checks.c15:work", cases + stress_cases + hist_cases, deadline_s=2400):
         rep = {"case": case if case["part"] != "history" else {"part": "history", "steps": case["steps"]}}
         if ob.get("_harness_error"):
             run.inconclusive("harness error: " + ob["_harness_error"])
@@ -349,7 +588,11 @@ def main(run):
             run.count(f"schedules_with_preemption_{case['threads']}_threads", st["with_preemption"])
             run.count(f"distinct_traces_{case['threads']}_threads", st["distinct_traces"])
             run.count(f"distinct_end_states_{case['threads']}_threads", ob["distinct_end_states"])
-            run.extras[f"scheduler_{case['threads']}_threads"] = {"complete": st["complete"], "max_depth": st["max_depth"], "blocked_seen": st["blocked_seen"], "targets": ob["targets"]}
+            run.count(f"scheduler_cases_finished_{case['threads']}_threads")
+            run.count("schedules_where_a_thread_stalled_outside_points_and_locks", st["blocked_seen"])
+            run.extras.setdefault(f"scheduler_{case['threads']}_threads", []).append(
+                {"preemption_bound": case.get("preemption_bound"), "random": case.get("random_schedules", 0), "schedules": st["schedules"], "complete": st["complete"],
+                 "max_depth": st["max_depth"], "blocked_seen": st["blocked_seen"], "targets": ob["targets"], "locks_made_logical": ob.get("locks")})
             for _ in range(st["schedules"]):
                 run.evaluations += 1
             for t in range(st["distinct_traces"]):
@@ -360,27 +603,50 @@ def main(run):
                 run.samples.append({"part": "scheduler", "threads": case["threads"], "schedules": st["schedules"], "complete": st["complete"], "distinct_traces": st["distinct_traces"]})
         elif part == "stress":
             run.count("stress_extractions", ob["extractions"])
+            run.count("stress_inputs_with_isolated_reference", ob.get("isolated_references", 0))
+            if case.get("group"):
+                run.count("stress_extractions_on_context_groups", ob["extractions"])
             for p in ob["problems"]:
-                run.violation(f"C15:stress-8-threads:mixed-workload:{p['sym']}", p["detail"], rep)
-            run.case(f"stress:{len(ob['problems'])}", sample={"part": "stress", "extractions": ob["extractions"], "problems": [p["sym"] for p in ob["problems"]]} if len(run.samples) < 4 else None)
+                feat = p.get("feature")
+                if p.get("part") == "history":
+                    run.violation(f"C15:history:{feat or 'sequence'}:{p['sym']}", p["detail"], rep)
+                else:
+                    run.violation(f"C15:stress-8-threads:{feat or 'mixed-workload'}:{p['sym']}", p["detail"], rep)
+            run.case(f"stress:{case.get('group')}:{len(ob['problems'])}", sample={"part": "stress", "extractions": ob["extractions"], "problems": [p["sym"] for p in ob["problems"]]} if len(run.samples) < 4 else None)
         elif part == "history":
             run.count("history_steps", ob["steps"])
+            if case.get("group"):
+                group_steps += ob["steps"]
             for p in ob["problems"]:
                 run.violation(f"C15:history:sequence:{p['sym']}", p["detail"], rep)
             for key, ds in ob["digests"].items():
                 b = baselines.get(key)
                 for d in ds:
+                    if b is not None:
+                        run.count("history_results_compared_with_isolated_baseline")
                     if b is not None and d != b:
-                        run.violation("C15:history:sequence:result-differs-from-isolated-baseline", f"{key[:200]}: {d} in a history vs {b} in a fresh process", rep)
-            run.case(f"history:{ob['steps']}:{len(ob['problems'])}", sample={"part": "history", "steps": ob["steps"]} if len(run.samples) < 5 else None)
+                        feat = _feature(json.loads(key))
+                        run.violation(f"C15:history:{feat or 'sequence'}:result-differs-from-isolated-baseline",
+                                      f"{key[:200]}: {d} in a history{' of context group ' + case['group'] if case.get('group') else ''} vs {b} in a fresh process", rep)
+            run.case(f"history:{case.get('group')}:{ob['steps']}:{len(ob['problems'])}", sample={"part": "history", "steps": ob["steps"]} if len(run.samples) < 5 else None)
+    run.count("context_groups", len(groups))
+    run.count("context_group_history_steps", group_steps)
+    run.count("context_documents_showing_their_ground_truth_in_isolation", truth_ok)
+    run.extras["context_groups"] = [g["name"] for g in groups]
     two = [st for k, st in sched_results if k == 2]
     run.require("two_thread_exploration_complete", 1 if two and two[0]["complete"] else 0, 1)
+    run.require("scheduler_cases_finished_3_threads", run.counters.get("scheduler_cases_finished_3_threads", 0), 2)
     run.require("schedules_2_threads", run.counters.get("schedules_2_threads", 0), 50)
     run.require("schedules_with_preemption_2_threads", run.counters.get("schedules_with_preemption_2_threads", 0), 1)
     run.require("schedules_3_threads", run.counters.get("schedules_3_threads", 0), 300)
     run.require("stress_extractions", run.counters.get("stress_extractions", 0), run.n(200, 3000))
     run.require("history_steps", run.counters.get("history_steps", 0), run.n(150, 3000))
     run.require("baselines", len(baselines), 10)
+    run.require("history_results_compared_with_isolated_baseline", run.counters.get("history_results_compared_with_isolated_baseline", 0), run.n(300, 3000))
+    run.require("context_groups", len(groups), 25)
+    run.require("context_group_history_steps", group_steps, run.n(200, 1200))
+    run.require("stress_extractions_on_context_groups", run.counters.get("stress_extractions_on_context_groups", 0), run.n(400, 2000))
+    run.require("context_documents_showing_their_ground_truth_in_isolation", truth_ok, int(0.9 * truth_n) if truth_n else 1)
 
 
 def replay(run, doc):
